@@ -80,6 +80,13 @@ func (c *Config) Proxy(closing chan bool, cc io.ReadWriter, url *url.URL) error 
 	// The client-to-server relay depends on the server-to-client relay and vice versa.
 	cToS.peer, sToC.peer = sToC, cToS
 
+	// When one direction ends (EOF, error or proxy shutdown) the session is over: `done` makes the
+	// other direction end too instead of waiting for its own read to fail.
+	done := make(chan struct{})
+	var doneOnce sync.Once
+	endSession := func() { doneOnce.Do(func() { close(done) }) }
+	cToS.done, sToC.done = done, done
+
 	// Creating processors is circular because the create function references the relays and the
 	// relays need to call create.
 	cToS.processors = &streamProcessors{
@@ -106,12 +113,14 @@ func (c *Config) Proxy(closing chan bool, cc io.ReadWriter, url *url.URL) error 
 	wg.Add(2)
 	go func() { // Forwards frames from client to server.
 		defer wg.Done()
+		defer endSession()
 		if err := cToS.relayFrames(closing); err != nil {
 			log.Errorf("relaying frame from client to %v: %v", url, err)
 		}
 	}()
 	go func() { // Forwards frames from server to client.
 		defer wg.Done()
+		defer endSession()
 		if err := sToC.relayFrames(closing); err != nil {
 			log.Errorf("relaying frame from %v to client: %v", url, err)
 		}
